@@ -1,5 +1,6 @@
 """C14 - process-spawning checks follow the documented decision table."""
 import family
+import scancorr
 from oracles import c14
 
 PROP_FILES = ["theories/Props/C14.v", "theories/Inst/C14_inst.v"]
@@ -12,4 +13,4 @@ def run(R, replay=None):
               "shapes x shell= values x layouts x user-supplied configurations, partial-path and wildcard grids; scanned "
               "by the real bandit (-t B602..B609) and by the Gallina plugin models; the property's decision table is "
               "evaluated independently on the program's AST; non-trivial = at least one finding or internal error")
-    family.run_family(R, PROP_FILES, DEPS, ["gen.fam_shell"], c14.oracle, "shell family", max_quick=2500)
+    family.run_family(R, PROP_FILES, DEPS, ["gen.fam_shell"], c14.oracle, "shell family", max_quick=2500, eq=scancorr.FINDINGS_AND_ERRORS)
